@@ -1,23 +1,334 @@
 /-
 C24 — Chunked decoding is exact and rejects malformed framing.
+
+Property theorems only. Model: `SquidModel.Chunked.{Tok,Decoder,Feed}` (TeChunkedParser, the tokenizer functions it
+uses, and the caller's feeding loop); grammar: `SquidModel.Chunked.Grammar`; lemmas: `SquidModel.Chunked.*`.
+`feedAll relaxed capOf segs` is the run of the real calling pattern: the segments arrive one by one, every
+`parse()` call gets a payload buffer with `capOf i` octets of space (`i` = number of calls so far), and space is
+offered again while the parser asks for it. All statements hold for every input, segmentation and capacity
+sequence — no bound on sizes.
+
+Full statement that is NOT true of the code (see `segmentation_independence_counterexample`):
+  ∀ segs, (feedAll relaxed capOf segs) agrees with (feedAll relaxed capOf [segs.flatten])
+It is proved below with the one-shot verdict `reject extCrlf` excluded (`segmentation_independence_partial`).
 -/
-import SquidModel.Chunked.Feed
+import SquidModel.Chunked.Reject
 
 namespace SquidModel.C24
-open SquidModel.Chunked
+open SquidModel.Chunked SquidModel.Chunked.Grammar
 
-def big : Nat → Nat := fun _ => 2 ^ 30
+/-- the run on the unsegmented input, with payload space that never runs out of the caller's patience -/
+abbrev oneShot (relaxed : Bool) (capOf : Nat → Nat) (input : Bytes) : Run := feedAll relaxed capOf [input]
 
-/-- `5;a=x \r\nhello\r\n0\r\n\r\n` -/
+theorem oneShot_obs (relaxed : Bool) (capOf : Nat → Nat) (hpos : ∀ i, 0 < capOf i) (input : Bytes) :
+    (oneShot relaxed capOf input).obs = obsOf [] (parseU relaxed St.init input) := by
+  have := feed_obs relaxed capOf hpos Run.init rfl input
+  simpa [oneShot, feedAll, Run.init] using this
+
+/-- **Exactness.** For any body, any encoding of it in the grammar (any chunk sizes with any hex case and leading
+zeros, any BWS the grammar allows, token and quoted-string extensions, trailers), any segmentation of the encoding
+followed by arbitrary further octets, and any positive payload capacities: the decoder finishes, has output exactly
+the body, and has consumed exactly the encoding (what it still holds is a prefix of the octets after the encoding). -/
+theorem decode_exact (relaxed : Bool) (capOf : Nat → Nat) (hpos : ∀ i, 0 < capOf i)
+    (body enc extra : Bytes) (henc : Encodes relaxed body enc) (segs : List Bytes) (hsegs : segs.flatten = enc ++ extra) :
+    (feedAll relaxed capOf segs).verdict = .done ∧
+    (feedAll relaxed capOf segs).out = body ∧
+    ∃ m, extra = (feedAll relaxed capOf segs).inBuf ++ m := by
+  have hO := oneShot_obs relaxed capOf hpos (enc ++ extra)
+  rw [parseU_valid relaxed henc extra] at hO
+  obtain ⟨o1, o2, o3, o4⟩ := obs_ret hO
+  simp only [if_true, List.nil_append] at o3 o4
+  rcases feedAll_oneShot relaxed capOf hpos segs with hA | hQ
+  · rw [hsegs] at hA
+    unfold Agree at hA
+    generalize feedAll relaxed capOf segs = R at hA ⊢
+    cases hR : R.verdict with
+    | more =>
+      rw [hR] at hA
+      have : R.verdict = (oneShot relaxed capOf (enc ++ extra)).verdict := by
+        simp only [Run.obs, Obs.mk.injEq] at hA; exact hA.2.2
+      rw [hR, o4] at this; simp at this
+    | done =>
+      rw [hR] at hA
+      obtain ⟨_, a2, _, m, a4⟩ := hA
+      exact ⟨rfl, by rw [← a2]; exact o3, m, by rw [← a4]; exact o2.symm⟩
+    | tooLarge => rw [hR] at hA; rw [show (feedAll relaxed capOf [enc ++ extra]).verdict = _ from o4] at hA; simp at hA
+    | reject e => rw [hR] at hA; rw [show (feedAll relaxed capOf [enc ++ extra]).verdict = _ from o4] at hA; simp at hA
+  · rw [hsegs, show (feedAll relaxed capOf [enc ++ extra]).verdict = _ from o4] at hQ; simp at hQ
+
+/-- exactness without pipelined octets: everything is consumed -/
+theorem decode_exact_all_consumed (relaxed : Bool) (capOf : Nat → Nat) (hpos : ∀ i, 0 < capOf i)
+    (body enc : Bytes) (henc : Encodes relaxed body enc) (segs : List Bytes) (hsegs : segs.flatten = enc) :
+    (feedAll relaxed capOf segs).verdict = .done ∧ (feedAll relaxed capOf segs).out = body ∧
+    (feedAll relaxed capOf segs).inBuf = [] := by
+  obtain ⟨h1, h2, m, h3⟩ := decode_exact relaxed capOf hpos body enc [] henc segs (by simpa using hsegs)
+  refine ⟨h1, h2, ?_⟩
+  have := (List.append_eq_nil_iff.mp h3.symm).1
+  exact this
+
+/-- **Truncation.** A proper prefix of a valid encoding, in any segmentation and with any capacities, only ever
+makes the decoder ask for more data (never an error, never "done"), and what it has output is a prefix of the body. -/
+theorem truncated_needs_more (relaxed : Bool) (capOf : Nat → Nat) (hpos : ∀ i, 0 < capOf i)
+    (body enc p q : Bytes) (henc : Encodes relaxed body enc) (hpq : p ++ q = enc) (hq : q ≠ [])
+    (segs : List Bytes) (hsegs : segs.flatten = p) :
+    (feedAll relaxed capOf segs).verdict = .more ∧ ∃ rest, body = (feedAll relaxed capOf segs).out ++ rest := by
+  have hfull := parseU_valid relaxed henc []
+  rw [List.append_nil, ← hpq] at hfull
+  have hx := parseU_ext relaxed St.init (by simp [St.init]) p q
+  have hO := oneShot_obs relaxed capOf hpos p
+  -- the one-shot run on the prefix
+  have hone : (oneShot relaxed capOf p).verdict = .more ∧ ∃ rest, body = (oneShot relaxed capOf p).out ++ rest := by
+    cases hX : parseU relaxed St.init p with
+    | threw e o => rw [hX] at hx; simp only [CallSpec] at hx; rw [hx] at hfull; simp at hfull
+    | ret d c' =>
+      rw [hX] at hx hO
+      obtain ⟨_, _, o3, o4⟩ := obs_ret hO
+      cases d with
+      | true =>
+        simp only [CallSpec] at hx
+        rw [hx] at hfull
+        simp only [Outcome.ret.injEq, true_and] at hfull
+        have : (c'.ext q).buf = [] := by rw [hfull]
+        simp at this
+        exact absurd this.2 hq
+      | false =>
+        simp only [CallSpec] at hx
+        by_cases hd : c'.st.stage = .done
+        · simp only [hd, if_true] at hx
+          obtain ⟨c'', e1, _⟩ := hx
+          rw [e1] at hfull; simp at hfull
+        · simp only [hd, if_false] at hx
+          simp only [Bool.false_eq_true, if_false, hd] at o4
+          refine ⟨o4, ?_⟩
+          rcases hx with heq | ⟨o, hbad⟩
+          · rw [hfull] at heq
+            cases hZ : parseU relaxed c'.st (c'.buf ++ q) with
+            | threw e o => rw [hZ] at heq; simp [obsOf] at heq
+            | ret d2 c2 =>
+              rw [hZ] at heq
+              simp only [obsOf, Obs.mk.injEq, List.nil_append] at heq
+              exact ⟨c2.out, by rw [o3, List.nil_append]; exact heq.2.1⟩
+          · rw [hbad] at hfull; simp at hfull
+  rcases feedAll_oneShot relaxed capOf hpos segs with hA | hQ
+  · rw [hsegs] at hA
+    unfold Agree at hA
+    generalize feedAll relaxed capOf segs = R at hA ⊢
+    cases hR : R.verdict with
+    | more =>
+      rw [hR] at hA
+      have : R.out = (oneShot relaxed capOf p).out := by
+        simp only [Run.obs, Obs.mk.injEq] at hA; exact hA.2.1
+      exact ⟨rfl, by rw [this]; exact hone.2⟩
+    | done => rw [hR] at hA; rw [show (feedAll relaxed capOf [p]).verdict = _ from hone.1] at hA; simp at hA
+    | tooLarge => rw [hR] at hA; rw [show (feedAll relaxed capOf [p]).verdict = _ from hone.1] at hA; simp at hA
+    | reject e => rw [hR] at hA; rw [show (feedAll relaxed capOf [p]).verdict = _ from hone.1] at hA; simp at hA
+  · rw [hsegs, show (feedAll relaxed capOf [p]).verdict = _ from hone.1] at hQ; simp at hQ
+
+/-- **Segmentation independence (partial).** For *every* input, well-formed or not: unless the run on the
+unsegmented input fails with "cannot skip CRLF after [chunk-ext]", every segmentation with every capacity
+sequence ends with the same verdict and the same decoded octets as the unsegmented run. -/
+theorem segmentation_independence_partial (relaxed : Bool) (capOf capOf' : Nat → Nat) (hpos : ∀ i, 0 < capOf i)
+    (hpos' : ∀ i, 0 < capOf' i) (segs : List Bytes)
+    (hex : (oneShot relaxed capOf' segs.flatten).verdict ≠ .reject .extCrlf) :
+    (feedAll relaxed capOf segs).verdict = (oneShot relaxed capOf' segs.flatten).verdict ∧
+    (feedAll relaxed capOf segs).out = (oneShot relaxed capOf' segs.flatten).out := by
+  have hcaps : (oneShot relaxed capOf segs.flatten).obs = (oneShot relaxed capOf' segs.flatten).obs := by
+    rw [oneShot_obs relaxed capOf hpos, oneShot_obs relaxed capOf' hpos']
+  have hv : (oneShot relaxed capOf segs.flatten).verdict = (oneShot relaxed capOf' segs.flatten).verdict := by
+    simp only [Run.obs, Obs.mk.injEq] at hcaps; exact hcaps.2.2
+  have ho : (oneShot relaxed capOf segs.flatten).out = (oneShot relaxed capOf' segs.flatten).out := by
+    simp only [Run.obs, Obs.mk.injEq] at hcaps; exact hcaps.2.1
+  rw [← hv, ← ho]
+  rw [← hv] at hex
+  rcases feedAll_oneShot relaxed capOf hpos segs with hA | hQ
+  · unfold Agree at hA
+    generalize feedAll relaxed capOf segs = R at hA ⊢
+    cases hR : R.verdict with
+    | more =>
+      rw [hR] at hA
+      simp only [Run.obs, Obs.mk.injEq] at hA
+      exact ⟨by rw [← hR]; exact hA.2.2, hA.2.1⟩
+    | done => rw [hR] at hA; exact ⟨hA.1.symm, hA.2.1.symm⟩
+    | tooLarge => rw [hR] at hA; exact ⟨hA.1.symm, hA.2.symm⟩
+    | reject e => rw [hR] at hA; exact ⟨hA.1.symm, hA.2.symm⟩
+  · exact absurd hQ hex
+
+/-- A rejection of the unsegmented input with any class other than "cannot skip CRLF after [chunk-ext]" is a
+rejection, with the same class, in every segmentation and with every capacity sequence. -/
+theorem reject_in_every_segmentation (relaxed : Bool) (capOf : Nat → Nat) (hpos : ∀ i, 0 < capOf i)
+    (input : Bytes) (e : Rej) (o : Bytes) (hU : parseU relaxed St.init input = .threw e o) (he : e ≠ .extCrlf)
+    (segs : List Bytes) (hsegs : segs.flatten = input) :
+    (feedAll relaxed capOf segs).verdict = .reject e := by
+  have hO := oneShot_obs relaxed capOf hpos input
+  rw [hU] at hO
+  have hOv := (obs_threw hO).2
+  rcases feedAll_oneShot relaxed capOf hpos segs with hA | hQ
+  · rw [hsegs] at hA
+    unfold Agree at hA
+    generalize feedAll relaxed capOf segs = R at hA ⊢
+    cases hR : R.verdict with
+    | more =>
+      rw [hR] at hA
+      have : R.verdict = (oneShot relaxed capOf input).verdict := by
+        simp only [Run.obs, Obs.mk.injEq] at hA; exact hA.2.2
+      rw [hR, hOv] at this; simp at this
+    | done => rw [hR] at hA; rw [show (feedAll relaxed capOf [input]).verdict = _ from hOv] at hA; simp at hA
+    | tooLarge => rw [hR] at hA; rw [show (feedAll relaxed capOf [input]).verdict = _ from hOv] at hA; simp at hA
+    | reject e' =>
+      rw [hR] at hA; rw [show (feedAll relaxed capOf [input]).verdict = _ from hOv] at hA
+      simp only [Verdict.reject.injEq] at hA
+      rw [hA.1]
+  · rw [hsegs, show (feedAll relaxed capOf [input]).verdict = _ from hOv] at hQ
+    simp only [Verdict.reject.injEq] at hQ
+    exact absurd hQ he
+
+/-- **0x prefixes are rejected**: after any number of complete chunks, a chunk-size starting with `0x` or `0X`
+is rejected in every segmentation. -/
+theorem reject_0x (relaxed : Bool) (capOf : Nat → Nat) (hpos : ∀ i, 0 < capOf i)
+    (pre body rest : Bytes) (x : UInt8) (hpre : ChunkSeq relaxed pre body) (hx : x = 120 ∨ x = 88)
+    (segs : List Bytes) (hsegs : segs.flatten = pre ++ 48 :: x :: rest) :
+    (feedAll relaxed capOf segs).verdict = .reject .zeroX := by
+  refine reject_in_every_segmentation relaxed capOf hpos _ .zeroX body ?_ (by simp) segs hsegs
+  rw [parseU_chunkseq relaxed hpre _ (by simp)]
+  exact loop_bad_size relaxed (parseChunkSize_zeroX x hx rest) body _
+
+/-- **Non-hex characters are rejected**: a chunk-size must start with a hex digit. -/
+theorem reject_nonhex (relaxed : Bool) (capOf : Nat → Nat) (hpos : ∀ i, 0 < capOf i)
+    (pre body rest : Bytes) (b : UInt8) (hpre : ChunkSeq relaxed pre body) (hb : isHex b = false)
+    (segs : List Bytes) (hsegs : segs.flatten = pre ++ b :: rest) :
+    (feedAll relaxed capOf segs).verdict = .reject .size := by
+  refine reject_in_every_segmentation relaxed capOf hpos _ .size body ?_ (by simp) segs hsegs
+  rw [parseU_chunkseq relaxed hpre _ (by simp)]
+  exact loop_bad_size relaxed (parseChunkSize_nonhex hb rest) body _
+
+/-- **Sizes that do not fit in 63 bits are rejected**, whatever follows the digits (even nothing yet). -/
+theorem reject_size_overflow (relaxed : Bool) (capOf : Nat → Nat) (hpos : ∀ i, 0 < capOf i)
+    (pre body ds rest : Bytes) (hpre : ChunkSeq relaxed pre body) (hds : ∀ x ∈ ds, isHex x = true)
+    (hbig : 2 ^ 63 ≤ hexValue ds 0) (segs : List Bytes) (hsegs : segs.flatten = pre ++ (ds ++ rest)) :
+    (feedAll relaxed capOf segs).verdict = .reject .size := by
+  refine reject_in_every_segmentation relaxed capOf hpos _ .size body ?_ (by simp) segs hsegs
+  have hne : ds ++ rest ≠ [] := by
+    intro h
+    have : ds = [] := (List.append_eq_nil_iff.mp h).1
+    rw [this] at hbig; simp [hexValue] at hbig
+  rw [parseU_chunkseq relaxed hpre _ hne]
+  exact loop_bad_size relaxed (parseChunkSize_overflow hds hbig rest) body _
+
+/-- accepted sizes fit in 63 bits (no signed overflow in `int64()`'s accumulator either: the model's accumulator is
+a natural number and never exceeds INT64_MAX when a size is returned) -/
+theorem accepted_size_fits (s rest : Bytes) (size : Nat) (h : parseChunkSize s = .ok size rest) : size < 2 ^ 63 := by
+  have key : ∀ (t : Bytes) (any : Int) (acc : Nat), acc ≤ int64Max → 0 ≤ (int64Loop t any acc).1 → (int64Loop t any acc).2.1 ≤ int64Max := by
+    intro t
+    induction t with
+    | nil => intro any acc h _; simpa [int64Loop] using h
+    | cons b r ih =>
+      intro any acc hacc hres
+      simp only [int64Loop] at hres ⊢
+      split
+      · simpa using hacc
+      · rename_i hb
+        split
+        · rename_i hov
+          rw [if_neg hb, if_pos hov] at hres
+          have := int64Loop_neg r (-1) acc (by omega)
+          omega
+        · rename_i hov
+          rw [if_neg hb, if_neg hov] at hres
+          exact ih 1 (acc * 16 + hexVal b) (by rw [int64Max_val]; rw [cutoff_val, cutlim_val] at hov; omega) hres
+  match s with
+  | [] => simp [parseChunkSize, int64, startsWith] at h
+  | [b] => rw [parseChunkSize_one] at h; split at h <;> simp at h
+  | b :: x :: r =>
+    rw [parseChunkSize_two] at h
+    by_cases hb : banned b x = true
+    · simp [hb] at h
+    · by_cases h0 : (int64Loop (b :: x :: r) 0 0).1 = 0
+      · simp [hb, h0] at h
+      · by_cases hneg : (int64Loop (b :: x :: r) 0 0).1 < 0
+        · simp [hb, h0, hneg] at h
+        · by_cases hne : (int64Loop (b :: x :: r) 0 0).2.2 = []
+          · simp [hb, h0, hneg, hne] at h
+          · simp only [hb, h0, hneg, hne, if_false, Bool.false_eq_true, SzRes.ok.injEq] at h
+            have := key (b :: x :: r) 0 0 (by rw [int64Max_val]; omega) (by omega)
+            rw [h.1, int64Max_val] at this
+            omega
+
+/-- **Missing CRLF after chunk data is rejected**: after any number of complete chunks, a chunk whose data is
+followed by anything that cannot become CRLF is rejected, in every segmentation. -/
+theorem reject_missing_crlf (relaxed : Bool) (capOf : Nat → Nat) (hpos : ∀ i, 0 < capOf i)
+    (pre body ds h d bad : Bytes) (size : Nat) (hpre : ChunkSeq relaxed pre body) (hs : IsSize ds size) (hsz : 0 < size)
+    (hlt : size < 2 ^ 63) (hh : IsHdrRest relaxed h) (hd : d.length = size) (hbad : NotCrlf bad)
+    (segs : List Bytes) (hsegs : segs.flatten = pre ++ (ds ++ h ++ d ++ bad)) :
+    (feedAll relaxed capOf segs).verdict = .reject .chunkCrlf := by
+  refine reject_in_every_segmentation relaxed capOf hpos _ .chunkCrlf (body ++ d) ?_ (by simp) segs hsegs
+  have hne : ds ++ h ++ d ++ bad ≠ [] := by
+    obtain ⟨hne, _⟩ := hs
+    cases ds <;> simp_all
+  rw [parseU_chunkseq relaxed hpre _ hne]
+  have hlen : 1 ≤ (ds ++ h ++ d ++ bad).length := by
+    cases hh' : ds ++ h ++ d ++ bad with
+    | nil => exact absurd hh' hne
+    | cons a t => simp
+  obtain ⟨F, hF⟩ : ∃ F, (pre ++ (ds ++ h ++ d ++ bad)).length + 1 = F + 1 + 1 := ⟨(pre ++ (ds ++ h ++ d ++ bad)).length - 1, by simp at hlen ⊢; omega⟩
+  rw [hF]
+  exact loop_missing_crlf relaxed hs hsz hlt hh hd hbad body F
+
+/-- **Malformed extensions are rejected**: after any number of complete chunks, a `;` that is not followed (after
+optional BWS) by a chunk-ext-name is rejected in every segmentation. -/
+theorem reject_bad_ext_name (relaxed : Bool) (capOf : Nat → Nat) (hpos : ∀ i, 0 < capOf i)
+    (pre body ds w0 w2 rest : Bytes) (b : UInt8) (size : Nat) (hpre : ChunkSeq relaxed pre body) (hs : IsSize ds size)
+    (hlt : size < 2 ^ 63) (h0 : IsWspRun w0) (h2 : IsBwsRun relaxed w2) (hb1 : isTchar b = false) (hb2 : isBws relaxed b = false)
+    (segs : List Bytes) (hsegs : segs.flatten = pre ++ (ds ++ (w0 ++ 59 :: (w2 ++ b :: rest)))) :
+    (feedAll relaxed capOf segs).verdict = .reject .extName := by
+  refine reject_in_every_segmentation relaxed capOf hpos _ .extName body ?_ (by simp) segs hsegs
+  rw [parseU_chunkseq relaxed hpre _ (by simp)]
+  obtain ⟨F, hF⟩ : ∃ F, (pre ++ (ds ++ (w0 ++ 59 :: (w2 ++ b :: rest)))).length + 1 = F + 1 + 1 :=
+    ⟨(pre ++ (ds ++ (w0 ++ 59 :: (w2 ++ b :: rest)))).length - 1, by simp; omega⟩
+  rw [hF]
+  exact loop_bad_ext_name relaxed rest hs hlt h0 h2 hb1 hb2 body F
+
+/-- Further malformed extensions (one instance per throw site; these hold for the unsegmented header —
+for classes other than `extCrlf` also in every segmentation by `reject_in_every_segmentation`). -/
+example : (oneShot false (fun _ => 4096) [49, 59, 13, 10]).verdict = .reject .extName := by decide          -- `1;\r\n`
+example : (oneShot false (fun _ => 4096) [49, 59, 97, 61, 13, 10]).verdict = .reject .token := by decide   -- `1;a=\r\n`
+example : (oneShot false (fun _ => 4096) [49, 59, 97, 61, 34, 13, 10]).verdict = .reject .qdtext := by decide  -- `1;a="\r\n`
+example : (oneShot false (fun _ => 4096) [49, 59, 97, 61, 34, 92, 127, 34]).verdict = .reject .qpair := by decide  -- `1;a="\<DEL>"`
+example : (oneShot false (fun _ => 4096) [49, 59, 97, 32, 98, 13, 10]).verdict = .reject .extCrlf := by decide   -- `1;a b\r\n`
+example : (oneShot true (fun _ => 4096) [49, 59, 97, 61, 120, 11, 13, 10]).verdict = .reject .extCrlf := by decide -- `1;a=x<VT>\r\n`
+
+/-- The excluded case is real in the code as it stands (`extCommit`: parseChunkExtensions() moves the parse
+checkpoint after every extension; the flag is read from the source by the translator, so that the statement
+stays true when the candidate fix removes that line): BWS between the last chunk-ext value and CRLF is rejected when
+the header arrives in one read and accepted when a read ends between the value and the CR.
+Witness: `5;a=x \r\nhello\r\n0\r\n\r\n`, cut after the SP. -/
 def witness : Bytes := [53, 59, 97, 61, 120, 32, 13, 10, 104, 101, 108, 108, 111, 13, 10, 48, 13, 10, 13, 10]
 
-/-- Segmentation independence is false of the real code on malformed input: BWS between the last
-chunk-ext value and CRLF is rejected when the header arrives in one read and accepted when a read
-ends between the value and the CR. -/
-theorem segmentation_independence_counterexample :
-    (feedAll false big [witness]).verdict = .reject .extCrlf ∧
-    (feedAll false big [witness.take 6, witness.drop 6]).verdict = .done ∧
-    (feedAll false big [witness.take 6, witness.drop 6]).out = [104, 101, 108, 108, 111] := by
+theorem segmentation_independence_counterexample (hcode : Gen.ChunkedSets.extCommit = true) :
+    (feedAll false (fun _ => 2 ^ 30) [witness]).verdict = .reject .extCrlf ∧
+    (feedAll false (fun _ => 2 ^ 30) [witness.take 6, witness.drop 6]).verdict = .done ∧
+    (feedAll false (fun _ => 2 ^ 30) [witness.take 6, witness.drop 6]).out = [104, 101, 108, 108, 111] := by
+  revert hcode
   decide
+
+/-! ### the hypotheses are satisfiable, the recognisers are not vacuous -/
+
+/-- `5\r\nhello\r\n0\r\n\r\n` is in the grammar (as an encoding of `hello`) -/
+example : Encodes false [104, 101, 108, 108, 111] [53, 13, 10, 104, 101, 108, 108, 111, 13, 10, 48, 13, 10, 13, 10] := by
+  refine ⟨[53], 5, [13, 10, 104, 101, 108, 108, 111, 13, 10, 48, 13, 10, 13, 10], ⟨by simp, by decide, by decide⟩, by decide, ?_, rfl⟩
+  have hl : After false 0 [] ([13, 10] ++ [13, 10]) :=
+    After.last [13, 10] [13, 10] (IsHdrRest.plain [] (by intro b hb; simp at hb))
+      ⟨[], IsTrailerLines.nil, rfl, by decide⟩
+  exact After.chunk 5 [13, 10] [104, 101, 108, 108, 111] [48] 0 [] _ (by decide) (by decide) rfl
+    (IsHdrRest.plain [] (by intro b hb; simp at hb)) ⟨by simp, by decide, by decide⟩ (by decide) hl
+
+/-- and the model decodes it, byte by byte and with one octet of space per call -/
+example : (feedAll false (fun _ => 1) ([53, 13, 10, 104, 101, 108, 108, 111, 13, 10, 48, 13, 10, 13, 10].map fun b => [b])).out
+    = [104, 101, 108, 108, 111] := by decide
+/-- a truncated encoding asks for more -/
+example : (oneShot false (fun _ => 7) [53, 13, 10, 104, 101]).verdict = .more := by decide
+/-- the grammar is not everything: a bare LF after the size is not a header rest the decoder accepts -/
+example : (oneShot false (fun _ => 7) [53, 10, 104]).verdict = .reject .extCrlf := by decide
+/-- the counterexample input is *not* in the grammar's reach: the one-shot run rejects it -/
+example : (oneShot false (fun _ => 2 ^ 30) witness).verdict ≠ .done := by decide
 
 end SquidModel.C24
